@@ -447,7 +447,12 @@ static void run_case(const json& c, json& r) {
         throw vh::Mismatch(2, "every delivered item is well-formed (traversal stays inside the item)", illformed, "illformed");
     }
     // leaks
-    const int th = count_dir("/proc/self/task");
+    // a joined thread can stay visible in /proc for a moment after pthread_join() returned
+    int th = count_dir("/proc/self/task");
+    for (int i = 0; i < 200 && th > g_base_threads; ++i) {
+        ::usleep(5000);
+        th = count_dir("/proc/self/task");
+    }
     const int fds = count_dir("/proc/self/fd");
     if (th > g_base_threads) {
         throw vh::Mismatch(3, g_base_threads, th, "threads left behind after the Reader is gone");
